@@ -31,7 +31,7 @@ ASSUMPTIONS = [
     "dense residuals computed by numpy are the reference; operators are densified (dimension <= 64)",
     "KPM bound: the solver's accuracy is defined on the rescaled problem, so the residual in original units is bounded by atol x half bandwidth; a factor 10 of slack is allowed",
 ]
-BUDGET = {"quick": dict(cases=1500, seconds=75), "thorough": dict(cases=24000, seconds=540)}
+BUDGET = {"quick": dict(cases=1500, seconds=300), "thorough": dict(cases=24000, seconds=540)}
 CASE_TIMEOUT = 120
 MONITORS = {"product": False, "solvers": True}
 MONITOR_VERDICTS = ("sylvester", "greens", "nonfinite", "fp")
